@@ -231,7 +231,7 @@ func registerMore2() {
 		ID: "C20",
 		Explanation: "The real server.Loop, with real jrpc2 servers, is run as engine threads over a scripted in-memory Accepter: 0..2 connections; per connection the service's Assigner symbolically fails; the accepter then fails with a closing error, fails with another error, or blocks until the context ends; connections end by client close or context cancellation; the context may also end while a service is inside its Assigner call; scheduling decisions explored up to the delay bound. " +
 			"Asserted: one newService per connection; Loop does not return while a started server runs; exactly one Finish per started server and none for a failed Assigner, whose connection must be closed; Loop's return value.",
-		Bounds:      []string{"<= 2 connections (thorough 3)", "delay bound 2 (thorough 3), context switches at blocking operations", "no RPC traffic on the connections (server behaviour is C01-C10)"},
+		Bounds:      []string{"<= 2 connections", "delay bound 2 (thorough 3; the NetAccepter harness in the thorough tier also with preemption bound 1), context switches at blocking operations", "no RPC traffic on the connections (server behaviour is C01-C10)"},
 		Outside:     []string{"a real net.Listener and real sockets under NetAccepter (a scripted in-memory listener is used)", "handler durations (no handlers run here)"},
 		Assumptions: append([]string{threadAssumption}, commonAssumptions...),
 		Harnesses: []HarnessSpec{{Dir: "server", Name: "Harness_C20_loop", Reach: []string{"waits-for-servers", "finished", "assigner-failed", "accept-error", "done"}, Tweak: delays(2, 3)},
